@@ -280,11 +280,26 @@ def gen_stitch(rng, tier):
         yield dict(tag=tag, lines=[roundtrip_line(dfs, ub, n)])
 
 
+PAST, FUTURE = D0, datetime.datetime(2090, 1, 1)
+
+
 def generate(rng, tier):
-    for c in gen_single(rng, tier):
-        yield c
-    for c in gen_stitch(rng, tier):
-        yield c
+    """one case in four is dated in the future (2090): a missing bound must stay unbounded, it is not "now" """
+    global D0
+    try:
+        for g in (gen_single, gen_stitch):
+            it = g(rng, tier)
+            while True:
+                D0 = FUTURE if rng.random() < 0.25 else PAST
+                try:
+                    c = next(it)
+                except StopIteration:
+                    break
+                if D0 is FUTURE:
+                    c = dict(c, tag=c.get('tag', '') + '+future-dated')
+                yield c
+    finally:
+        D0 = PAST
 
 
 # ---------------------------------------------------------------- implementation runner
